@@ -53,13 +53,23 @@ pub struct Chunked<'a> {
     data: &'a [u8],
     pos: usize,
     chunk: usize,
+    /// an I/O error of this kind is reported once, when the read position has reached this offset (the data before
+    /// it is delivered first, the data behind it afterwards - what a pipe or socket does)
+    fail: Option<(usize, std::io::ErrorKind)>,
 }
 
 impl<'a> Chunked<'a> {
     pub fn new(data: &'a [u8], chunk: usize) -> Self {
-        Chunked { data, pos: 0, chunk }
+        Chunked { data, pos: 0, chunk, fail: None }
+    }
+    pub fn failing(data: &'a [u8], chunk: usize, at: usize, kind: std::io::ErrorKind) -> Self {
+        Chunked { data, pos: 0, chunk, fail: Some((at.min(data.len()), kind)) }
     }
 }
+
+/// the I/O error kinds a fault is drawn from (Interrupted is retried by the reader itself and must not be an error)
+pub const IO_KINDS: &[std::io::ErrorKind] = &[std::io::ErrorKind::WouldBlock, std::io::ErrorKind::Other, std::io::ErrorKind::BrokenPipe,
+    std::io::ErrorKind::UnexpectedEof, std::io::ErrorKind::TimedOut, std::io::ErrorKind::Interrupted];
 
 impl std::io::Read for Chunked<'_> {
     fn read(&mut self, out: &mut [u8]) -> std::io::Result<usize> {
@@ -73,7 +83,14 @@ impl std::io::Read for Chunked<'_> {
 
 impl BufRead for Chunked<'_> {
     fn fill_buf(&mut self) -> std::io::Result<&[u8]> {
-        let end = if self.chunk == 0 { self.data.len() } else { (self.pos + self.chunk).min(self.data.len()) };
+        let mut end = if self.chunk == 0 { self.data.len() } else { (self.pos + self.chunk).min(self.data.len()) };
+        if let Some((at, kind)) = self.fail {
+            if self.pos >= at {
+                self.fail = None;
+                return Err(std::io::Error::new(kind, "injected"));
+            }
+            end = end.min(at);
+        }
         Ok(&self.data[self.pos..end])
     }
     fn consume(&mut self, n: usize) {
@@ -100,6 +117,29 @@ impl Session {
         }
         let res = std::panic::catch_unwind(std::panic::AssertUnwindSafe(|| {
             let mut reader = Reader::from_reader(Chunked::new(bytes, chunk));
+            configure(&mut reader, cfg);
+            match prev {
+                None => into_struct(&mut reader),
+                Some(t) => extend_struct(&mut reader, t),
+            }
+        }));
+        match res {
+            Ok(Ok(t)) => {
+                let v = t.verif_view();
+                self.tree = Some(t);
+                Outcome::Ok(v)
+            }
+            Ok(Err(e)) => classify(&e),
+            Err(_) => Outcome::Panic,
+        }
+    }
+
+    /// feed through a source that reports one I/O error at byte offset `at`
+    pub fn feed_failing(&mut self, bytes: &[u8], cfg: &ReaderCfg, chunk: usize, at: usize, kind: std::io::ErrorKind) -> Outcome {
+        let prev = self.tree.take();
+        crate::util::toggle_logging();
+        let res = std::panic::catch_unwind(std::panic::AssertUnwindSafe(|| {
+            let mut reader = Reader::from_reader(Chunked::failing(bytes, chunk, at, kind));
             configure(&mut reader, cfg);
             match prev {
                 None => into_struct(&mut reader),
